@@ -178,7 +178,7 @@ pub fn check(m: &mut Monitor, c: &Case) {
                 sig.extend_from_slice(&c.ts.to_le_bytes());
                 sig.extend_from_slice(&c.now.to_le_bytes());
                 sig.extend_from_slice(&c.timeout.to_le_bytes());
-                m.nontrivial(&sig);
+                crate::util::nontrivial_capped(m, &sig);
                 // exactly-at-threshold classes
                 let diff_ns: i128 = if c.pflags & 4 != 0 { c.diff as i128 * NS } else { c.diff as i128 };
                 let margin = c.timeout as i128 * NS - (d * NS + diff_ns);
@@ -398,7 +398,7 @@ pub fn run(args: &Args) -> i32 {
         return mon.finish();
     }
     let n_shards = 64u64;
-    let per_shard = args.scale(250_000, 4_000_000);
+    let per_shard = args.scale(2_500_000, 30_000_000);
     let sweep_parts = if args.is_thorough() { 64 } else { 64 * 8 };
     vcommon::monitor::run_shards(&mut mon, args.threads, n_shards, |shard, m| {
         if shard == 0 {
